@@ -45,5 +45,9 @@ where
     P: AsRef<Path>,
 {
     let mut writer = File::create(dst).map(Writer::new)?;
-    writer.write_index(index)
+    writer.write_index(index)?;
+    // Dropping the BGZF writer would write the last block and the EOF marker but discard any
+    // error.
+    writer.into_inner().finish()?;
+    Ok(())
 }
